@@ -140,6 +140,19 @@ func monitor(prop string, h *History, res *common.Result) {
 					return
 				}
 			}
+		case "C09":
+			// a kill at a quiescent point = the file as it is now: it must load and must record exactly the
+			// acknowledged live holds (sequential: nothing is in flight)
+			if h.Cfg.File {
+				if v.FileErr != "" {
+					viol(res, prop, "seq:crash:file-unloadable", fmt.Sprintf("after %q the state file cannot be loaded: %s", s.Op.Line(), v.FileErr), h, i, nil)
+					return
+				}
+				if a, b := nonEmpty(v.Listing), nonEmpty(v.File); a != b && !noclearDisc {
+					viol(res, prop, "seq:crash:file-vs-acknowledged", fmt.Sprintf("after %q a kill would leave a file recording {%s} while the acknowledged live holds are {%s}", s.Op.Line(), b, a), h, i, nil)
+					return
+				}
+			}
 		case "C08":
 			sig := ""
 			if noclearDisc {
